@@ -395,9 +395,67 @@ EXC_CLASSES: list = [ValueError, RuntimeError, KeyError, TypeError, BackendBoom,
 BASE_EXC_CLASSES: list = [KeyboardInterrupt, BackendBaseBoom, SystemExit, GeneratorExit]
 
 
-def exc_instance(isexc: bool, i: int) -> BaseException:
+class NeedsArgsBoom(Exception):
+    """A subclass with required extra constructor arguments (cannot be re-created as `type(e)(str(e))`)."""
+
+    def __init__(self, code, where, *, hint):
+        super().__init__(code, where)
+        self.code, self.where, self.hint = code, where, hint
+
+
+class StrRaisesBoom(Exception):
+    """`str(e)` / `repr(e)` themselves raise."""
+
+    def __str__(self):
+        raise RuntimeError("__str__ of the backend's exception raised")
+
+    __repr__ = __str__
+
+
+class EmptyStrBoom(Exception):
+    def __str__(self):
+        return ""
+
+
+# exception VALUES (round 10b): how the instance is made from the class chosen by `id`
+EXC_VALUES: list = [
+    ("noargs", lambda c: c()),
+    ("empty", lambda c: c("")),
+    ("whitespace", lambda c: c("  \n\t ")),
+    ("newline-first", lambda c: c("\nsecond line")),
+    ("multiline", lambda c: c("first\nsecond\r\nthird")),
+    ("long", lambda c: c("x" * 100000)),
+    ("non-ascii", lambda c: c("ошибка \u65e5\u672c \U0001f4a5 \udcff")),
+    ("braces", lambda c: c("{} {0} {name} %s %d %(x)s %")),
+    ("none-arg", lambda c: c(None)),
+    ("int-args", lambda c: c(2, "x")),
+    ("bytes-arg", lambda c: c(b"\xff\xfe")),
+    ("tuple-arg", lambda c: c(("a", 1), ["b"])),
+    ("needs-args", lambda c: NeedsArgsBoom(7, "kernel", hint="h")),
+    ("str-raises", lambda c: StrRaisesBoom("x")),
+    ("empty-str", lambda c: EmptyStrBoom("x")),
+    ("chained", lambda c: _chained(c)),
+]
+EXC_VALUE_CLASSES = [ValueError, KeyError, RuntimeError, AssertionError, NotImplementedError, OSError, Exception, BackendBoom]
+
+
+def _chained(c):
+    try:
+        try:
+            raise KeyError()
+        except KeyError as inner:
+            raise c() from inner
+    except Exception as e:  # noqa: BLE001
+        return e
+
+
+def exc_instance(isexc: bool, i: int, val=None) -> BaseException:
     cls = (EXC_CLASSES if isexc else BASE_EXC_CLASSES)
-    return cls[i % len(cls)]("scripted backend fault")
+    if val is None or not isexc:
+        e = cls[i % len(cls)]("scripted backend fault")
+    else:
+        e = EXC_VALUES[val % len(EXC_VALUES)][1](cls[i % len(cls)])
+    return e
 
 
 class _Out:
@@ -460,7 +518,7 @@ class ScriptedBackend:
         class Session:
             def __init__(self):
                 if "raise" in script and outer.at == "init":
-                    e = exc_instance(script["raise"]["isExc"], script["raise"]["id"])
+                    e = exc_instance(script["raise"]["isExc"], script["raise"]["id"], script["raise"].get("val"))
                     record_exc(e)
                     raise e
                 self.output_names = list(script.get("names", []))
@@ -472,7 +530,7 @@ class ScriptedBackend:
 
             def run(self, _names, _feed):
                 if "raise" in script:
-                    e = exc_instance(script["raise"]["isExc"], script["raise"]["id"])
+                    e = exc_instance(script["raise"]["isExc"], script["raise"]["id"], script["raise"].get("val"))
                     record_exc(e)
                     raise e
                 if script.get("noniterable"):
@@ -531,8 +589,12 @@ def backend_setting(sel: str):
 # ------------------------------------------------------------------------------- node runners
 
 def exc_name(e: BaseException) -> str:
+    try:
+        text = str(e)
+    except BaseException:  # noqa: BLE001
+        text = ""
     for i, c in enumerate(EXC_CLASSES):
-        if type(e) is c and str(e).strip("'\"") == "scripted backend fault":
+        if type(e) is c and text.strip("'\"") == "scripted backend fault":
             return f"Backend:true:{i}"
     for i, c in enumerate(BASE_EXC_CLASSES):
         if type(e) is c:
@@ -563,7 +625,11 @@ def observe(build: Callable[[], Any]) -> dict:
         try:
             node = build()
         except BaseException as e:  # noqa: BLE001 - the outcome *is* the exception class
-            return {"raised": exc_name(e), "detail": str(e)[:200], "node": None}
+            try:
+                detail = str(e)[:200]
+            except BaseException:  # noqa: BLE001 - an exception whose __str__ raises
+                detail = f"<{type(e).__name__}: __str__ raised>"
+            return {"raised": exc_name(e), "detail": detail, "node": None}
     nwarn = sum(1 for w in rec if "does not type-check" in str(w.message))
     outs = [{"key": key, "value": canon_pv(var._value)}
             for key, var in node.outputs.get_vars().items()]
@@ -706,3 +772,62 @@ def declared_universe() -> list:
         T("bool", [2]), T("str", []), T("str", [None]), T("str", [2, 1]), Seq(T("str", [2])), Opt(T("str", [2])),
         Seq(T("bool", [2])), T("f32", [2, 3]),
     ]
+
+
+# ------------------------------------------------------------------------- shape grid (round 10b)
+
+GRID_DECL = [0, 1, 3, "N", None]     # declared dimension: constant 0 / 1 / k, named, unknown
+GRID_ACT = [0, 1, 3, 4]              # actual extent: 0, 1, k, k+1
+
+
+def _arr(dt, shape, pid=3):
+    n = 1
+    for d in shape:
+        n *= d
+    return {"r": "arr", "dt": dt, "shape": list(shape), "pid": (pid if n else 0)}
+
+
+def shape_grid() -> list:
+    """(declared type, raw array) pairs: declared dims x actual extents EXHAUSTIVELY for ranks 0-3 (right element
+    type), plus rank +-1 neighbours - the constant dimension 0 must accept the extent 0 only."""
+    import itertools
+
+    out = []
+    for rank in range(4):
+        for decl in itertools.product(GRID_DECL, repeat=rank):
+            for act in itertools.product(GRID_ACT, repeat=rank):
+                out.append((T("i64", list(decl)), _arr("i64", act)))
+            base = [d if isinstance(d, int) else 3 for d in decl]
+            out.append((T("i64", list(decl)), _arr("i64", base + [1])))          # rank + 1
+            out.append((T("i64", list(decl)), _arr("i64", base + [0])))
+            if rank:
+                out.append((T("i64", list(decl)), _arr("i64", base[:-1])))       # rank - 1
+    for decl in itertools.product(GRID_DECL, repeat=2):                          # another element class, in containers
+        for act in itertools.product(GRID_ACT, repeat=2):
+            out.append((T("str", list(decl)), _arr("str", act)))
+            out.append((Seq(T("i64", list(decl))), {"r": "list", "xs": [_arr("i64", [3, 3], 5), _arr("i64", act)]}))
+            out.append((Opt(T("i64", list(decl))), _arr("i64", act)))
+    return out
+
+
+def dim_faults(decl: list, dt="i64") -> list:
+    """Ill-typed-array faults, one per dimension: the fault-free array of a declared shape with ONE extent changed
+    (0 -> 1, 0 -> 3, k -> 0, k -> k-1, k -> k+1), rank +-1; right element type throughout."""
+    base = [d if isinstance(d, int) else 2 for d in decl]
+    outs = [base]
+    for i, d in enumerate(base):
+        for nd in ([1, 3] if d == 0 else [0, d - 1, d + 1]):
+            if nd != d and nd >= 0:
+                outs.append(base[:i] + [nd] + base[i + 1:])
+    outs += [base + [1], base + [0], [1] + base]
+    if base:
+        outs.append(base[:-1])
+    seen, res = set(), []
+    for sh in outs:
+        if tuple(sh) not in seen:
+            seen.add(tuple(sh))
+            res.append(_arr(dt, sh, 7))
+    return res
+
+
+ZERO_DECLS = [[0], [0, 2], [2, 0], [2, 0, 3], [0, 0], [None, 0], ["N", 0], [0, None], [1], [3], [], [1, 0, 1]]
